@@ -533,8 +533,54 @@ fn run_script(name: String, ops: Vec<Op>, seed: u64) {
     }
 }
 
+fn ring_at_scale(n: usize, stack_kb: usize) {
+    // C15 confirmation at scale: build a ring of n adopted objects and collect it on a small stack
+    static DESTROYED: AtomicUsize = AtomicUsize::new(0);
+    struct R {
+        next: RefCell<Option<Rc<R>>>,
+    }
+    impl Drop for R {
+        fn drop(&mut self) {
+            DESTROYED.fetch_add(1, Ordering::Relaxed);
+        }
+    }
+    let t = std::thread::Builder::new().stack_size(stack_kb * 1024).spawn(move || {
+        // Built back to front so that every object has exactly one strong handle (held by its predecessor):
+        // no handle of an adopted object is dropped during construction (every such drop would trace the graph).
+        let tail = Rc::new(R { next: RefCell::new(None) });
+        let tail_w = Rc::downgrade(&tail);
+        let mut next = tail;
+        for _ in 1..n {
+            let node = Rc::new(R { next: RefCell::new(None) });
+            unsafe { Rc::adopt_unchecked(&node, &next) };
+            *node.next.borrow_mut() = Some(next);
+            next = node;
+        }
+        let head = next;
+        {
+            let t = tail_w.upgrade().unwrap();
+            let h = Rc::clone(&head);
+            unsafe { Rc::adopt_unchecked(&t, &h) };
+            *t.next.borrow_mut() = Some(h);
+            // dropping `t` traces the ring once (the ring is still owned by `head`)
+        }
+        drop(tail_w);
+        let t0 = std::time::Instant::now();
+        drop(head);
+        t0.elapsed().as_millis()
+    }).unwrap();
+    match t.join() {
+        Ok(ms) => println!("ring ok n={} destroyed={} ms={}", n, DESTROYED.load(Ordering::Relaxed), ms),
+        Err(_) => println!("ring panicked n={}", n),
+    }
+}
+
 fn main() {
     let args: Vec<String> = std::env::args().collect();
+    if args.len() >= 4 && args[1] == "--ring" {
+        ring_at_scale(args[2].parse().unwrap(), args[3].parse().unwrap());
+        return;
+    }
     let path = &args[1];
     let seed: u64 = args.get(2).map(|s| s.parse().unwrap()).unwrap_or(0);
     std::panic::set_hook(Box::new(|_| {}));
